@@ -24,6 +24,8 @@ def tv(v):
         return "{" + ", ".join(sorted(tv(x) for x in v)) + "}"
     if isinstance(v, (list, tuple)):
         return "<<" + ", ".join(tv(x) for x in v) + ">>"
+    if isinstance(v, dict):
+        return "[" + ", ".join("%s |-> %s" % (k, tv(x)) for k, x in v.items()) + "]"
     raise ValueError(v)
 
 
@@ -49,10 +51,15 @@ def write_mc(name, consts, invariants=(), properties=(), constraint=None):
     return os.path.join(d, name + ".tla"), os.path.join(d, name + ".cfg")
 
 
-def consts(**kw):
-    c = {"Mode": "gen", "MaxFrames": 1, "Limit": LIMIT, "Fins": {0, 1}, "Rsvs": {0}, "Ops": {1, 2}, "Masks": {1},
-         "Lens": {(7, 0)}, "His": {0}, "Avoid": set(), "Fixed": (), "KAT": (("k", "a"),), "EncLens": {0}, "Codes": {1000},
-         "D": 1, "Pols": {1}}
+def fam(n=1, lim=LIMIT, fins=(0, 1), rsvs=(0,), ops=(1, 2), masks=(1,), lens=((7, 0),), his=(0,), fixed=()):
+    """one frame-alphabet family (see CONSTANT Fams)"""
+    return {"n": n, "lim": lim, "fins": set(fins), "rsvs": set(rsvs), "ops": set(ops), "masks": set(masks),
+            "lens": set(lens), "his": set(his), "fixed": tuple(fixed)}
+
+
+def consts(fams=None, **kw):
+    c = {"Mode": "gen", "Fams": tuple(fams or [fam()]), "Avoid": set(), "KAT": (("k", "a"),), "EncLens": {0},
+         "Codes": {1000}, "D": 1, "Pols": {1}}
     c.update(kw)
     return c
 
@@ -65,6 +72,7 @@ def model_check_decoder(chk, name, c, *, workers=None, timeout=1500):
     spec, cfg = write_mc(name, c, invariants=DEC_INV, properties=DEC_PROP)
     res = vkit.tlc(spec, cfg, workers=workers, coverage=True, want_prints=False, timeout=timeout)
     chk.add_tlc(name, res)
+    vkit.log("[tlc] %s: %d distinct states, %.1fs" % (name, res.distinct, res.wall))
     chk.check_coverage(res, ["Start", "FeedChunk"], name)
     return res
 
@@ -84,6 +92,7 @@ def generate(chk, name, c, *, invariants=("HdrOK", "Emit"), simulate=None, depth
     res = vkit.tlc(spec, cfg, simulate=simulate, depth=depth, seed=seed, workers=workers or (4 if simulate else None),
                    print_sink=sink, timeout=timeout)
     chk.add_tlc(name, res)
+    vkit.log("[tlc] %s: %d records, %.1fs" % (name, len(out), res.wall))
     if not out:
         raise vkit.InfraError("generator %s produced nothing\n%s" % (name, res.raw[-2000:]))
     return out
@@ -351,7 +360,10 @@ def run_records(chk, exe, recs, rnd, *, label, singles, multis, k2_open, bytewis
                 continue
             scen.append({"h": [OPEN_OP] + segment_ops(rec, cuts)})
             meta.append((rec, lab, cuts))
+    import time
+    t0 = time.time()
     outs = vkit.run_driver(exe, scen, timeout=900)
+    vkit.log("[drv] %s: %d runs in %.1fs" % (label[:40], len(scen), time.time() - t0))
     nfail = 0
     for (rec, lab, cuts), sc, o in zip(meta, scen, outs):
         chk.cov["traces_validated_against_impl"] += 1
